@@ -8,6 +8,8 @@ from wire import *  # noqa: F401,F403
 from wire import Toks, p_node, p_list, p_str, p_bool, es, ok_str, err_of, enode, enodes
 
 IMPL = {}
+UNAVAILABLE: dict[str, str] = {}
+ROUTE_UNAVAILABLE = "route-unavailable"
 
 
 def op(name):
@@ -20,6 +22,8 @@ def op(name):
 def run_line(line: str) -> str:
     t = Toks(line)
     name = t.next()
+    if name not in IMPL and UNAVAILABLE:
+        return ROUTE_UNAVAILABLE
     try:
         return IMPL[name](t)
     except Exception as e:  # the real code raised: canonical error kind
@@ -102,7 +106,12 @@ def _load_plugins():
     import os
     here = os.path.dirname(os.path.abspath(__file__))
     for p in sorted(glob.glob(os.path.join(here, "ops_*.py"))):
-        importlib.import_module(os.path.basename(p)[:-3])
+        try:
+            importlib.import_module(os.path.basename(p)[:-3])
+        except (ImportError, AttributeError) as e:
+            # a name this plugin reaches for no longer exists in the library (renamed private helper, …): its ops are
+            # unavailable — lines that need them are skipped and counted, never judged
+            UNAVAILABLE[os.path.basename(p)[:-3]] = f"{type(e).__name__}: {e}"
 
 
 _load_plugins()
